@@ -137,11 +137,13 @@ fn main() {
             }
             let expensive = fam.name == "map";
             let config = fam.name == "range-config";
+            // families with many cheap parameterisations whose inputs sit around one threshold
+            let dense = matches!(fam.name, "bound-bookkeeping" | "constant-operands");
             let names: Vec<String> = fam.ops.iter().map(|o| o.name()).collect();
             let find = |name: &str| fam.ops.iter().find(|o| o.name() == name).unwrap_or_else(|| panic!("harness: unknown op {name}"));
 
             // (1) completeness + S1 / must-reject
-            let cases = fam.ops.len() as u32 * if expensive { p.tier.pick(2, 24) } else if config { p.tier.pick(8, 60) } else { per_op_complete };
+            let cases = fam.ops.len() as u32 * if expensive { p.tier.pick(2, 24) } else if config { p.tier.pick(8, 60) } else if dense { p.tier.pick(8, 120) } else { per_op_complete };
             p.sub(
                 &format!("{}.complete", fam.name),
                 "non-trivial iff an operand comes from a boundary class (0,1,2,pivot-1,pivot,pivot+1,pivot/2,p-1,p-2,(p-1)/2,(p+1)/2,equal/adjacent operand), a branch of the definition is crossed (zero, equal, wrap, exact division), or the input is outside the documented domain (must be rejected)",
@@ -191,7 +193,10 @@ fn main() {
             if !matches!(fam.name, "vector" | "map" | "range-config" | "decomposition" | "assertions") {
                 let mut rng = SplitMix(vpcore::derive_seed(&["C04", fam.name, "flip"], p.seed));
                 let mut items = vec![];
-                for op in &fam.ops {
+                for (oi, op) in fam.ops.iter().enumerate() {
+                    if dense && quick && oi % 3 != (p.seed % 3) as usize {
+                        continue;
+                    }
                     for _ in 0..p.tier.pick(1, 6) {
                         let picks = (0..4).map(|_| ((rng.next_u64() % N_CLS as u64) as u8, rng.next_u64())).collect();
                         items.push(Case { op: op.name(), picks, seed: rng.next_u64() });
